@@ -207,8 +207,12 @@ func c17Filter(c *core.Ctx) {
 	}
 	c.Decide(okPre, rule, "types.(*CertificateBuildParams).Range#precondition", nc.Pos(), "a sub-range is built only when c.FromBlock <= fromBlock <= toBlock <= c.ToBlock")
 	// the unchanged receiver is returned only for the identical range
-	eqF := core.TermEdges(fn, sx, func(s string, _ *core.Term) bool { return s == "(c.FromBlock == fromBlock)" || s == "(fromBlock == c.FromBlock)" }, true)
-	eqT := core.TermEdges(fn, sx, func(s string, _ *core.Term) bool { return s == "(c.ToBlock == toBlock)" || s == "(toBlock == c.ToBlock)" }, true)
+	eqF := core.TermEdges(fn, sx, func(s string, _ *core.Term) bool {
+		return s == "(c.FromBlock == fromBlock)" || s == "(fromBlock == c.FromBlock)"
+	}, true)
+	eqT := core.TermEdges(fn, sx, func(s string, _ *core.Term) bool {
+		return s == "(c.ToBlock == toBlock)" || s == "(toBlock == c.ToBlock)"
+	}, true)
 	okSame := true
 	for _, rc := range core.ReturnCases(fn) {
 		if len(rc.Values) == 2 && isNilConst(rc.Values[1]) && sx.Of(rc.Values[0]).String() == "c" {
@@ -377,7 +381,9 @@ func c17Exit(c *core.Ctx) {
 			okSame := true
 			for _, rc := range core.ReturnCases(ad) {
 				if len(rc.Values) == 2 && isNilConst(rc.Values[1]) && sa.Of(rc.Values[0]).String() == "buildParams" {
-					en := core.TermEdges(ad, sa, func(s string, _ *core.Term) bool { return s == "(*aggsender/flows.MaxL2BlockNumberLimiter).IsEnabled(f)" }, false)
+					en := core.TermEdges(ad, sa, func(s string, _ *core.Term) bool {
+						return s == "(*aggsender/flows.MaxL2BlockNumberLimiter).IsEnabled(f)"
+					}, false)
 					al := core.TermEdges(ad, sa, func(s string, _ *core.Term) bool {
 						return s == "(*aggsender/flows.MaxL2BlockNumberLimiter).IsAllowedBlockNumber(f, buildParams.ToBlock)"
 					}, true)
@@ -551,7 +557,9 @@ func c17Gap(c *core.Ctx) {
 	}
 	m := c.MustFn(rule, "aggsender/types", "", "getBlockMinusOne")
 	if m != nil {
-		pos := core.TermEdges(m, sx, func(s string, _ *core.Term) bool { return s == "(fromBlock > const(0))" || s == "(fromBlock != const(0))" }, true)
+		pos := core.TermEdges(m, sx, func(s string, _ *core.Term) bool {
+			return s == "(fromBlock > const(0))" || s == "(fromBlock != const(0))"
+		}, true)
 		ok := len(pos) > 0
 		var got []string
 		for _, rc := range core.ReturnCases(m) {
@@ -573,8 +581,8 @@ func c17Gap(c *core.Ctx) {
 
 func init() {
 	register(&Property{
-		ID:    "C17",
-		Level: "other",
+		ID:          "C17",
+		Level:       "other",
 		Explanation: "Decides the comparison-only part of 'cutting a certificate's block range never drops, duplicates or reorders events': C17-filter — in Range both filter loops range over the source slice in order and append the element itself iff fromBlock <= BlockNum <= toBlock (each append is dominated by both bound edges, and from the point where both hold the loop cannot advance without appending; the comparisons are recognised in all four written forms, so the result is exact for this comparison-only code), the new parameters take the requested bounds and copy every other field, a sub-range is built only for c.FromBlock <= fromBlock <= toBlock <= c.ToBlock and the receiver is returned only for its own range; C17-first — every caller of Range passes the certificate's own FromBlock; C17-exit — limitCertSize drops exactly the last block per step, iterates on each cut's result and returns only when no limit is set, the estimate fits, or one block is left; the last-block clamp cuts to exactly maxL2BlockNumber only when ToBlock exceeds it. C17-gap — the shape of BlockRange.Gap's touch test: no +1/-1 arithmetic on an endpoint inside a branch condition (endpoints are compared directly or through getBlockMinusOne), getBlockMinusOne subtracts only on its x > 0 edge and returns 0 otherwise, and the empty gap is returned exactly on the two >= edges against the saturating predecessor. Declined: maximality of the cut and monotonicity of EstimatedSize (float arithmetic), and the numeric values of the non-empty gap (needs a relational numeric domain or a solver, outside this family as practised here). C17-exit also requires every successful result of GetCertificateBuildParamsInternal to be what limitCertSize returned. Added after round 7: parameters are typed before limitCertSize measures them (C17-exit), the last-settled range handed to Gap is [FromBlock, ToBlock] or [0, FromBlock-1] by the InError edge (C17-gap).",
 		Rules: []Rule{
 			{ID: "C17-filter", Floor: 13, Run: c17Filter, Text: "[ORD]-style exact comparison analysis of the Range filters and precondition; literal field map"},
